@@ -13,7 +13,7 @@
    reactor-style gossip, timeouts when idle) must bring every honest node past the next height
    (partial, DESIGN.md C12). *)
 From Coq Require Import List NArith ZArith Lia Bool.
-From AnnVerif Require Import Base.Res Base.Bytes Model.VoteSet Model.ValSet Model.Node Proofs.NodeProofs Proofs.Unlock.
+From AnnVerif Require Import Base.Res Base.Bytes Model.VoteSet Model.ValSet Model.Node Proofs.NodeProofs Proofs.PowerSum Proofs.Unlock Proofs.NoStaleLock.
 Import ListNotations.
 Open Scope Z_scope.
 
@@ -96,6 +96,36 @@ Example c12_release_nonvacuous :
       (match add_vote_cs (mkCfg false) ux_v (ux_a 4) n with
        | Ok (n', _) => match lblock n' with None => true | Some _ => false end
        | _ => false end)
+    | _ => false end
+  | _ => false end = true.
+Proof. vm_compute. reflexivity. Qed.
+
+(* (4) the same as an invariant of every state a node reaches from the start of a height (any
+   validator set with bounded powers, any inputs, configuration without skip-commit), while it is
+   in that height: if it is locked on a block since round lr, every +2/3 prevote majority it holds
+   for a round in (lr, its round] is for that block - no lock is kept against a later polka the
+   node knows of - and no vote set of a round ahead of the node holds +2/3 of any prevotes (it
+   would have moved the node there).  The engines' monitor "lock-kept-against-later-polka" checks
+   the first statement on the real ConsensusState after every input. *)
+Theorem c12_no_stale_lock :
+  forall (VS : list validator), bounded VS -> forall (h0 : Z) c vs lc me s ins n0 n,
+  c_skip_commit c = false -> vals_of vs = VS ->
+  init_node h0 vs lc me s = Ok n0 -> run c ins n0 = Ok n -> height n = h0 ->
+  (forall lb r b, lblock n = Some lb -> lround n < r -> r <= round n ->
+     maj23 (hv_prevotes (votes n) r) = Some b -> hashes_to (Some lb) (b_hash b) = true) /\
+  (forall r, round n < r -> any23 (hv_prevotes (votes n) r) = false).
+Proof. exact no_stale_lock. Qed.
+Print Assumptions c12_no_stale_lock.
+
+(* non-vacuity: the scenario above up to the two missed nil prevotes is such a state - height 1,
+   round 3, locked since round 0 - and its validator set is bounded *)
+Example c12_no_stale_lock_nonvacuous :
+  match ux_n0 with
+  | Ok n0 =>
+    match run (mkCfg false) ux_inputs n0 with
+    | Ok n => (height n =? 1) && (round n =? 3) && (lround n =? 0) &&
+              (match lblock n with Some _ => true | None => false end) &&
+              (match maj23 (hv_prevotes (votes n) 1) with None => true | Some _ => false end)
     | _ => false end
   | _ => false end = true.
 Proof. vm_compute. reflexivity. Qed.
